@@ -18,7 +18,7 @@ from . import common
 MODULES = ["CoapVerif.Props.C05", "CoapVerif.Findings.C05"]
 GENERATED = ["Dedup.lean"]
 L = 247 * 10**9
-BEHS = ["pb", "pbe", "none", "sep", "empty"]
+BEHS = ["pb", "pbe", "none", "sep", "empty", "hjm", "hjr"]
 
 
 def own_first(getmid):
